@@ -312,7 +312,7 @@ def atsp_triangle(ctx: Ctx):
                         def is_i(z):
                             return z.op == "list" and len(z.args) == 1 and z.args[0].op == "iter"
                         def is_all(z):
-                            return z.op == "slice" and all(vg.is_const(y, None) for y in z.args)
+                            return z.op == "slice" and all(vg.is_none(y) for y in z.args)
                         return ("col" if is_all(r_) and is_i(c_) else "row" if is_i(r_) and is_all(c_) else None) if e.op == "ellipsis" else None
                     form = {piv(x.args[1]) for x in sm.args} == {"row", "col"}
             diag = raw.op == "store" and vg.is_const(raw.args[2], 0)
